@@ -11,6 +11,6 @@ META = dict(
 
 
 def run(ctx):
-    fams = [pc.family_limits, lambda: pc.family_overflow(False), lambda: pc.family_faults(False, ctx.seed)[:60]]
+    fams = [pc.family_limits, pc.family_timer, lambda: pc.family_overflow(False), lambda: pc.family_faults(False, ctx.seed)[:60]]
     mc = ["MCProducer.small.cfg"] if ctx.tier == "quick" else ["MCProducer.quick.cfg"]
     return pc.check(ctx, "C16", fams, mc)
